@@ -105,6 +105,29 @@ def check(index, ctx):
                 ctx.require(ok, "R2", f"{entry}: discovery from {tensors}" + ("" if excl_empty else " excluding the features"),
                             f"tensors={e['tensors']}, excluded={e['excluded']}", f"discovery call receives tensors={e['tensors']}, excluded={e['excluded']} (empty={e['excluded_empty']}), "
                             f"in a loop over {e['loop_order']}; expected tensors={tensors}, excluded={'nothing' if excl_empty else 'the features'}", e["loc"])
+    # argument given as a single Tensor: discovery must still receive the normalised collection
+    for entry, atom in (("backward", "tensors"), ("mtl_backward", "features")):
+        srun = next((r for r in rs if r.entry == entry and r.variant.get("single")), None)
+        if srun is None:
+            continue
+        for res in _pipe.main_paths(srun)[:1]:
+            ld = [e for e in _pipe.evs(res, "leaf_discovery") if e["excluded_empty"]]
+            ok = bool(ld) and all(e["tensors"] == [atom] for e in ld)
+            ctx.require(ok, "R2", f"{entry}: discovery from a single Tensor argument", f"receives the normalised list of {atom}",
+                        f"with `{atom}` given as a single Tensor the discovery call receives {[e['tensors'] for e in ld]} instead of the normalised list: the defaulted call iterates / rejects a bare tensor "
+                        "that the explicit call accepts", ld[0]["loc"] if ld else "")
+    # no memoisation / hidden state in discovery: the graph may change between two calls on the same tensor objects
+    for fi in index.all_functions("torchjd.autojac"):
+        for d in getattr(fi.node, "decorator_list", []):
+            t = norm_text(d)
+            if any(x in t for x in ("lru_cache", "functools.cache", "cached_property")) or t in ("cache",):
+                ctx.violated("R4", f"{fi.short}: decorated with {t}", "memoised results of the autograd-graph traversal are keyed on tensor objects, but in-place operations extend a tensor's graph: "
+                             "a later defaulted call would reuse a stale leaf set", fi.loc())
+    for m in index.modules.values():
+        if m.name.startswith("torchjd.autojac"):
+            for nm, e in m.globals_.items():
+                if isinstance(e, (ast.Dict, ast.List, ast.Set)) or (isinstance(e, ast.Call) and norm_text(e.func) in ("dict", "list", "set", "defaultdict", "WeakKeyDictionary", "weakref.WeakKeyDictionary")):
+                    ctx.violated("R4", f"{m.name}.{nm}: module-level mutable container", "hidden state shared between calls in autojac", f"{m.path}:{getattr(e, 'lineno', 0)}")
     # ------------------------------------------------------------------------------------------------ R3
     run = get("mtl_backward", tasks=False, shared=False, chunk=True)
     ov_fn = None
